@@ -4,21 +4,23 @@ from fractions import Fraction as F
 from vcheck import fmt_q, parse_out_vec
 import gen
 from props import amg_common as ac
+from props import c02_block as cb
 from props.common import account
 
 # exact builds (tie against the model + oracles) and double builds (power-of-two scaling, bitwise).
 # The double builds are the poisoned-heap binaries of C10 (same source, same flags => same cache entry).
 DDRIVERS = ["amgd_%s@poison" % c for c in ac.COARSENINGS]
-DRIVERS = ac.DRIVERS + DDRIVERS
-EXTRA_FLAGS = {"@poison": ["-DVQ_POISON"]}
+DRIVERS = ac.DRIVERS + DDRIVERS + cb.DRIVERS      # cb: block value types (harness/amgc_driver.hh, tools/props/c02_block.py)
+EXTRA_FLAGS = dict({"@poison": ["-DVQ_POISON"]}, **cb.extra_flags())
 MODEL = "amg"
 ASSUMPTIONS = [
     "transfer operators are taken from the implementation's hierarchy (property C04 covers them); coarse direct solve modelled as exact solve (C16)",
     "contraction is proved as strict decrease of the energy norm of every non-zero error (and |lambda| < 1 for every eigenvalue of I - BA that lies in the field); the step from there to the spectral radius (existence of an A-orthogonal eigenbasis over the reals) is not formalised",
     "ILU(0)/Chebyshev smoothers inside the cycle: model linked into the amg driver for the correspondence; no energy theorem for them (hypotheses of the cycle theorem); scaling: the Chebyshev sweep is proved (C02_chebyshev_scales), ILU(0) is covered by the scaling oracle on the implementation only",
+    "block value types (static_matrix<Q,b,b>, b = 2, 3; tools/props/c02_block.py): the block coarse direct solver is modelled by its specification (exact solve of the expanded scalar system); base scalars are embedded as c*I; proved for blocks: history independence and linearity over base scalars (right-linearity over the ring); symmetry / positive definiteness / energy decrease are implementation-side oracles only (full symmetry statement kept in Properties_C02.v); implementation runs that abort in detail::inverse on a singular diagonal block (non-symmetric matrices with smoothed aggregation) are out of domain and counted, not compared",
     "scaling clause: proved for the model over any field (c <> 0, transfer operators given); on the implementation checked in exact arithmetic for c = 2^k and a few other c > 0 (all coarsenings build the SAME transfer operators from c*A) and in the double build bitwise for c = 2^k, |k| <= 40 (no overflow / underflow in the generated range)",
 ]
-RULE = "seeded SPD M-matrices (paths, grids, random graphs) x 4 coarsenings x {damped_jacobi, spai0, gauss_seidel, ilu0, chebyshev} x ncycle/npre/npost/pre_cycles/coarse_enough/max_levels/direct_coarse; scripts: apply f, apply g, apply a f + b g, apply f again, cycle with non-zero x, unit vectors for small n; every third case has a twin built from c*A (exact build; c = 2^k, |k| <= 40, 3, 5/7), plus 120 (quick) / 600 (thorough) pairs A / 2^k A on dyadic data in the double build compared bitwise, plus Ruge-Stuben twins at 2^-60 that exhibit the known finding C02-rs-absolute-eps; non-trivial = non-zero output"
+RULE = "seeded SPD M-matrices (paths, grids, random graphs) x 4 coarsenings x {damped_jacobi, spai0, gauss_seidel, ilu0, chebyshev} x ncycle/npre/npost/pre_cycles/coarse_enough/max_levels/direct_coarse; scripts: apply f, apply g, apply a f + b g, apply f again, cycle with non-zero x, unit vectors for small n; every third case has a twin built from c*A (exact build; c = 2^k, |k| <= 40, 3, 5/7), plus 120 (quick) / 600 (thorough) pairs A / 2^k A on dyadic data in the double build compared bitwise, plus Ruge-Stuben twins at 2^-60 that exhibit the known finding C02-rs-absolute-eps; block values: 240 (quick) / 1200 (thorough) block M-matrices (b = 2, every sixth b = 3; three in four symmetric A_JI = A_IJ^T, generic non-commuting blocks) x {aggregation, smoothed_aggregation} x the five relaxations x cycle parameters, same script shape (unit vectors for n*b <= 12 / 16); non-trivial = non-zero output"
 
 def bump(st, key): st["by_op"][key] = st["by_op"].get(key, 0) + 1
 def dot(u, v): return sum(a * b for a, b in zip(u, v))
@@ -222,7 +224,23 @@ def classify(fail):
     if not sc: return {}
     return dict(oracle="scaling", coarsening=sc["coarsening"], symptom=sc["symptom"], below_rs_eps=sc["below_rs_eps"])
 
+def run_block(ctx, cases_override=None):
+    """block value types: amg<builtin<static_matrix<Q,b,b>>, ...> against Amg.cycle / Amg.apply at BlockS (c02_block.py)"""
+    try:
+        return cb.run(ctx, cases_override)
+    except Exception:
+        import traceback
+        return [dict(kind="counterexample", case=None, has_input=False, impl=None, model=None, op="amgc", size=0,
+                     theorem="block stage of the C02 check failed to evaluate: " + traceback.format_exc()[-1500:])]
+
 def run(ctx, cases_override=None):
+    import re
+    if cases_override and all(re.match(r"[qt]\d+_k\d+$", l.split(" ", 1)[0]) for l in cases_override):
+        return run_block(ctx, cases_override)          # replay of a block-valued case
+    bfails = [] if cases_override else run_block(ctx)
+    return bfails + run_scalar(ctx, cases_override)
+
+def run_scalar(ctx, cases_override=None):
     tier, seed = ctx["tier"], ctx["seed"]
     if cases_override:
         # replay: regenerate the run the case comes from (ids are "<q|t><seed>_c<k>[s|t]")
